@@ -526,7 +526,7 @@ def eval_meaning(payload):
     errs = validate_cached(ops)
     if errs:
         fails.append(("C17.validate.valid_accepted", inp, errs, []))
-        return False, fails
+        return False, fails, []
     df = build_df(tab)
     df0 = df.copy(deep=True)
     full = run_list(ops, df)
@@ -541,6 +541,7 @@ def eval_meaning(payload):
         fails.append(("C17.na.preserved", inp, js_view(view(full[1])), "no NaN/None cell; n/a stays the text n/a"))
     # step-wise meaning: step k is judged on the REAL table that the prefix produced
     nontrivial = False
+    checked = []
     cur = df0
     for k, op in enumerate(ops0):
         exp = ORACLES[op["operation"]](view(cur), op["parameters"])
@@ -549,6 +550,7 @@ def eval_meaning(payload):
         if exp[0] == "unspec":
             break
         label = "C17.meaning." + op["operation"]
+        checked.append(op["operation"] + (":raise" if exp[0] == "raise" else ""))
         if exp[0] == "raise":
             nontrivial = True
             if not (got[0] == "exc" and isinstance(got[1], exp[1])):
@@ -568,7 +570,7 @@ def eval_meaning(payload):
         if not same_table(view(cur), obs):
             nontrivial = True
         cur = got[1]
-    return nontrivial, fails
+    return nontrivial, fails, checked
 
 
 def eval_history(payload):
@@ -703,12 +705,14 @@ def eval_chunk(chunk):
     out = []
     for payload in chunk:
         try:
-            nontrivial, fails = EVAL[payload["kind"]](payload)
+            res = EVAL[payload["kind"]](payload)
+            nontrivial, fails = res[0], res[1]
+            checked = res[2] if len(res) > 2 else []
         except Exception as e:  # a fault of the workload itself: surface it, do not hide it
             import traceback
-            nontrivial, fails = False, [("C17.workload.internal_error", payload,
-                                         traceback.format_exc()[-600:], type(e).__name__)]
-        out.append((nontrivial, fails))
+            nontrivial, fails, checked = False, [("C17.workload.internal_error", payload,
+                                                  traceback.format_exc()[-600:], type(e).__name__)], []
+        out.append((nontrivial, fails, checked))
     return out
 
 
@@ -799,7 +803,7 @@ def split_events(rich):
     nested = SplitRowsOp.PARAMS["properties"]["new_events"]["patternProperties"][".*"]
     pools = {"onset_source": [[0.5], ["duration"], [1, "v"]] if rich else [[0.5], ["duration"]],
              "duration": [[0], ["duration", 1], ["v"]] if rich else [[0], ["duration", 1]],
-             "copy_columns": [["x"], ["x", "v"]] if rich else [["x"]]}
+             "copy_columns": [["v"], ["y", "v"]] if rich else [["v"]]}
     specs = gen_objects(nested, pools)
     events = [{"new1": s} for s in specs]
     with_cc = [s for s in specs if "copy_columns" in s]
@@ -909,7 +913,8 @@ def time_tables(rng, k):
     for n in (1, 2, 3):
         for _ in range(400):
             layout = rng.choice([["onset", "duration", "x"], ["onset", "duration", "x", "v"],
-                                 ["onset", "duration", "x", "y"], ["x", "duration", "onset", "v"]])
+                                 ["onset", "duration", "x", "y"], ["x", "duration", "onset", "v"],
+                                 ["onset", "duration", "x", "v", "y"], ["onset", "duration", "v", "y"]])
             on = sorted((rng.choice(onsets) for _ in range(n)), key=float) if rng.random() < 0.7 else \
                 [rng.choice(onsets + ["n/a"]) for _ in range(n)]
             mode = rng.random()
@@ -1203,8 +1208,11 @@ def run(w: Workload):
             results = pool.map(eval_chunk, chunks, chunksize=1)
     else:
         results = [eval_chunk(c) for c in chunks]
+    steps = {}
     for ch, res in zip(chunks, results):
-        for payload, (nontrivial, fails) in zip(ch, res):
+        for payload, (nontrivial, fails, checked) in zip(ch, res):
+            for c in checked:
+                steps[c] = steps.get(c, 0) + 1
             w.case(key=json.dumps(payload, sort_keys=True), nontrivial=nontrivial,
                    sample={k: payload[k] for k in payload if k != "env"})
             for clause, inp, obs, exp in fails:
@@ -1212,7 +1220,7 @@ def run(w: Workload):
     w.part("meaning of single operations", cases=info["single"],
            bound="every generated parameter set (per op: %s) x tables <=3x3 over {a,b,n/a,1,1.0} (thorough: all 155 one-column "
                  "tables + samples of the two/three-column ones; time tables sampled)" % info["param_sets"],
-           exhaustive=False)
+           exhaustive=False, steps_compared_with_the_oracle=dict(sorted(steps.items())))
     w.part("meaning of composed lists (2-3 ops), judged step by step on the real intermediate table", cases=info["composed"],
            bound="sampled lists x sampled tables", exhaustive=False)
     w.part("history / frame: one Dispatcher, 1-3 tables, every processing order", cases=info["history"],
@@ -1242,7 +1250,8 @@ def run(w: Workload):
 def replay(w: Workload, case: dict):
     payload = {k: v for k, v in case["input"].items() if k not in ("env", "step", "position", "table") or
                (k == "table" and isinstance(v, dict))}
-    nontrivial, fails = EVAL[payload["kind"]](payload)
+    res = EVAL[payload["kind"]](payload)
+    nontrivial, fails = res[0], res[1]
     w.case(key=json.dumps(payload, sort_keys=True), nontrivial=nontrivial)
     for clause, inp, obs, exp in fails:
         if clause == case["clause"]:
